@@ -1,5 +1,6 @@
 import PmtilesModel.Proofs.Cache
 import PmtilesModel.Proofs.ServerProtocol
+import PmtilesModel.Proofs.ServerTransparent
 /-!
 # C09 — Directory cache is transparent under concurrency, eviction and coalescing
 
@@ -77,5 +78,18 @@ theorem transparent (s : ServerProtocol.Store) (cs : List (Nat × ServerProtocol
   · exact Or.inl h1
   · exact Or.inr (Or.inl h1)
   · exact Or.inr (Or.inr (by rw [hone v hv]))
+
+/-- **strong transparency**: an archive that is not replaced (single version `v0`, valid header, non-empty
+    root, leaf pointers of positive length) is answered with exactly its uncached answer `answer v0 q` by
+    every completed request — no failure, no "not found" — whatever else happens: any number of concurrent
+    requests, any eviction choices, any schedule of loop steps and bucket deliveries, replacements of
+    other archives.  (`transparent` above allows failures; this theorem excludes them.) -/
+theorem transparent_strong (n0 : ServerProtocol.Name) (v0 : ServerProtocol.Version) (h0 : ServerProtocol.Hdr)
+    (ha : ServerProtocol.ArchOK v0 h0) (s : ServerProtocol.Store) (cs : List (Nat × ServerProtocol.Q))
+    (hu : ∀ n, (s n).Pairwise (fun a b => a.tag ≠ b.tag)) (hz : ∀ n, ∀ v ∈ s n, v.tag ≠ 0)
+    (hs : s n0 = [v0]) (st : ServerProtocol.St) (hr : ServerProtocol.ReachFix n0 v0 (ServerProtocol.initSt s cs) st)
+    (cid : Nat) (q : ServerProtocol.Q) (r : ServerProtocol.Resp) (hq : q.name = n0)
+    (h : (cid, ⟨q, .done r⟩) ∈ st.clients) : r = ServerProtocol.answer v0 q :=
+  ServerProtocol.transparent_strong n0 v0 h0 ha s cs hu hz hs st hr cid q r hq h
 
 end Pm.C09
